@@ -85,6 +85,9 @@ pub fn execute(case: &W1Case) -> RunOutcome<W1Out> {
     let config_text = serde_json::to_string(&case.config).unwrap();
     let trace = std::env::var_os("VSIM_TRACE_INSERTIONS").is_some();
     let model = PModel::parse(&case.problem, &case.matrices).ok();
+    // inputs with flagged legs: watch whether an individual ever drives one (see scen/flagwatch.rs)
+    let watch_flags = crate::scen::flagwatch::has_flags(&case.matrices);
+    crate::scen::flagwatch::reset();
     run_sim(&case.spec, || {
         let readers: Vec<BufReader<&[u8]>> = matrix_texts.iter().map(|m| BufReader::new(m.as_bytes())).collect();
         let problem = match (BufReader::new(problem_text.as_bytes()), readers).read_pragmatic() {
@@ -94,6 +97,13 @@ pub fn execute(case: &W1Case) -> RunOutcome<W1Out> {
                 return sys::monitor(|| W1Out::Rejected(msg.as_str().to_string()));
             }
         };
+        if watch_flags && !trace {
+            vrp_core::verif::set_insertion_observer(Some(std::rc::Rc::new(|ctx: &vrp_core::construction::heuristics::InsertionContext, site: vrp_core::verif::InsertionSite| {
+                if site == vrp_core::verif::InsertionSite::Applied {
+                    crate::scen::flagwatch::note(ctx);
+                }
+            })));
+        }
         if trace {
             // triage aid (H3): first applied insertion after which a hard rule is broken, with the operator stack
             let model = sys::monitor(|| model.clone());
@@ -111,12 +121,14 @@ pub fn execute(case: &W1Case) -> RunOutcome<W1Out> {
                     if let (Some(m), Ok(doc)) = (model.as_ref(), crate::scen::w2::write_ctx(ctx)) {
                         if let Ok(s) = serde_json::from_str::<Value>(&doc).map_err(|e| e.to_string()).and_then(|v| SSolution::parse(&v)) {
                             let (issues, _) = check_all(m, &s);
-                            let hard: Vec<_> = issues.iter().filter(|i| i.prop == "C01").collect();
+                            let skip = std::env::var("VSIM_TRACE_SKIP_RULES").unwrap_or_default();
+                            let hard: Vec<_> = issues.iter().filter(|i| i.prop == "C01" && !skip.split(',').any(|r| r == i.rule)).collect();
                             if !hard.is_empty() {
                                 count.set((n + 1, true));
                                 let bt = format!("{}", std::backtrace::Backtrace::force_capture());
                                 let stack: Vec<&str> = bt.lines().filter(|l| l.contains("vrp_core::solver::search") || l.contains("probing") || l.contains("rosomaxa::hyper")).collect();
-                                crate::say!("FIRST-BAD-INSERTION #{} {}:{} {}\n{}", n + 1, hard[0].prop, hard[0].rule, hard[0].msg, stack.join("\n"));
+                                let all: Vec<String> = issues.iter().filter(|i| i.prop == "C01").map(|i| format!("{}: {}", i.rule, i.msg)).collect();
+                                crate::say!("FIRST-BAD-INSERTION #{} {}:{} {}\n{}\nall hard issues of that individual: {:?}\n{}", n + 1, hard[0].prop, hard[0].rule, hard[0].msg, stack.join("\n"), all, doc);
                             }
                         }
                     }
@@ -238,6 +250,16 @@ impl W1Scenario {
                 msg: i.msg.clone(),
             })
             .collect();
+        let flag_insertions = crate::scen::flagwatch::seen();
+        if std::env::var_os("VSIM_DUMP").is_some() {
+            crate::say!("FLAGWATCH applied insertions with a flagged leg in some tour of the individual: {}", flag_insertions);
+        }
+        if flag_insertions > 0 {
+            rec.count("probe.runs_with_flagged_leg_during_search", 1);
+            for i in rec.issues.iter_mut().filter(|i| crate::scen::flagwatch::is_time_or_distance_rule(&i.rule) && crate::scen::flagwatch::concerns(&i.msg)) {
+                i.sig = if i.sig.is_empty() { crate::scen::flagwatch::TOKEN.to_string() } else { format!("{}|{}", i.sig, crate::scen::flagwatch::TOKEN) };
+            }
+        }
         if rec.issues.iter().any(|i| i.rule == "unreachable-leg") {
             for i in rec.issues.iter_mut() {
                 i.sig = if i.sig.is_empty() { "flagged-leg-in-solution".to_string() } else { format!("{}|flagged-leg-in-solution", i.sig) };
